@@ -246,10 +246,31 @@ let dt_handler (args : string list) : string =
         | (Ok v, _) when not (List.mem t ["strref"; "bytesref"; "cstrref"; "pathref"]) && not (contains t "set(" || contains t "heap(" || contains t "map(") ->
             main ^ ";re=" ^ (match encode_ty (ty_of d) v with Some cs -> hex_or_dash (flat cs) | None -> "refused")
         | _ -> main) in
-      (* an expectation carried by the case (a re-framed encoding of a known value): that value, or an error *)
-      (match List.filter (fun x -> String.length x > 0 && x.[0] = '=') rest with
-       | e :: _ -> main ^ "\tS=ok:" ^ String.sub e 1 (String.length e - 1) ^ ";*||err"
-       | [] -> main)
+      (* S=: only for cases that ask for it with an argument starting with '=' (the C04 plugin; C02 feeds DT arbitrary bytes
+         and judges robustness only).  `=?` asks for what Spec/TypeSem.v (spec_ty, all features) assigns to the tree the
+         reference parser finds at pos (spec_ty_lenient: the specification, open records), when the input there is one well-formed item followed by anything:
+         ok:<value>@<end> / err / nothing (TXAny, or no item).  `=<value>@<pos>` additionally carries the generator's own
+         expectation (a re-framed encoding of a known value: "that value at that position, or an error"); it is used when
+         spec_ty does not decide, and cross-checks spec_ty when it does. *)
+      let carried = (match List.filter (fun x -> String.length x > 0 && x.[0] = '=') rest with
+                     | e :: _ -> Some (String.sub e 1 (String.length e - 1)) | [] -> None) in
+      let st = at_pos inp pos in
+      let spec =
+        if carried = None || List.length st.drest > Ops_core.spec_max_len || not (tag_top (ty_of d)) then None else
+        (match parse (S (nat_of_int (List.length st.drest))) st.drest with
+         | Some (e, _) when wf e ->
+             (match spec_ty_lenient (ty_of d) e with
+              | TXOk (v, k) -> Some (Printf.sprintf "ok:%s@%s" (show_val d v) (ZA.to_string (ZA.add (zt_of_n pos) (zt_of_n k))))
+              | TXErr -> Some "err"
+              | TXAny -> None)
+         | _ -> None) in
+      let carried = (match carried with Some "?" -> None | x -> x) in
+      (match spec, carried with
+       | Some "err", _ -> main ^ "\tS=err"
+       | Some sp, Some ca when sp <> "ok:" ^ ca -> main ^ "\tS=SPEC-DISAGREES-WITH-GENERATOR:" ^ sp ^ "<>" ^ ca
+       | Some sp, _ -> main ^ "\tS=" ^ sp ^ ";*"
+       | None, Some ca -> main ^ "\tS=ok:" ^ ca ^ ";*||err"
+       | None, None -> main)
   | _ -> "?bad-DT"
 
 let () =
